@@ -31,7 +31,7 @@ def run(ctx):
                     runs[-1]["fault_at"] = fault_at
                 if early and api == "c":
                     runs[-1]["early"] = True
-        scns.append({"format": fmt, "allowed": None, "fields": fields, "checks": engine.gen_checks(rnd, fields), "header": rnd.choice([0, 0, 1, 2]), "runs": runs})
+        scns.append({"format": fmt, "line": rnd.choice(["lf", "cr", "crlf", "any", "none"]), "allowed": None, "fields": fields, "checks": engine.gen_checks(rnd, fields), "header": rnd.choice([0, 0, 1, 2]), "runs": runs})
     for scn, mruns, iruns in engine.run_scenarios(scns):
         sc = engine.strip_scn(scn)
         sc["runs"] = [dict(r, rows="<table>") for r in sc["runs"]]
